@@ -108,6 +108,12 @@ FieldInjections(f) ==
                     [f EXCEPT !.deps = <<DepImport>>, !.imps = <<DepMsg, DepClosed, DepOpen>>,
                               !.msgs[i].fields[j] = [x EXCEPT !.type = KEnum, !.tname = ".dep.DC"]])}
           ELSE {})
+    \* ... also where the field has explicit presence (oneof member, proto3 optional)
+    \cup (IF f.syntax = "proto3" /\ x.oneof # 0 /\ ~m.mapentry /\ x.type \notin {KMessage, KGroup}
+          THEN {Inj("proto3_oneof_member_of_closed_enum", "proto3_closed_enum",
+                    [f EXCEPT !.deps = <<DepImport>>, !.imps = <<DepMsg, DepClosed, DepOpen>>,
+                              !.msgs[i].fields[j] = [x EXCEPT !.type = KEnum, !.tname = ".dep.DC"]])}
+          ELSE {})
     \cup (IF f.syntax = "editions" /\ x.label = 1 /\ x.oneof = 0 /\ ~x.hd /\ ~m.mapentry /\ x.type \notin {KMessage, KGroup}
           THEN {Inj("implicit_field_of_closed_enum", "implicit_closed_enum",
                     [f EXCEPT !.deps = <<DepImport>>, !.imps = <<DepMsg, DepClosed, DepOpen>>,
